@@ -182,7 +182,6 @@ impl<'a> GeneratorState<'a> {
                 signed = *s;
             },
             ExprType::X => {
-                if acc_in_use { self.sasm(PHA)?; }
                 // Optimization in case of or 0
                 if let Operation::Or(_) = op {
                     if let ExprType::Immediate(v) = right2 {
@@ -190,11 +189,11 @@ impl<'a> GeneratorState<'a> {
                         else if high_byte && (v & 0xff00) == 0 { return Ok(ExprType::X); }
                     }
                 }
+                if acc_in_use { self.sasm(PHA)?; }
                 self.sasm(TXA)?;
                 signed = false;
             },
             ExprType::Y => {
-                if acc_in_use { self.sasm(PHA)?; }
                 // Optimization in case of or 0
                 if let Operation::Or(_) = op {
                     if let ExprType::Immediate(v) = right2 {
@@ -202,6 +201,7 @@ impl<'a> GeneratorState<'a> {
                         else if high_byte && (v & 0xff00) == 0 { return Ok(ExprType::Y); }
                     }
                 }
+                if acc_in_use { self.sasm(PHA)?; }
                 self.sasm(TYA)?;
                 signed = false;
             },
